@@ -186,7 +186,9 @@ def preflightObj (cfg : Cfg) (ow : Owner) (phaseClass : String) (inPhase : Bool)
       cfg.flavour.nsEscalation &&
       (if ow.ns = "" then false
        else if inPhase && phaseClass ≠ "" then false
-       else if desiredNs ow p ≠ "" then desiredNs ow p ≠ ow.ns
+       else if desiredNs ow p ≠ "" && desiredNs ow p ≠ ow.ns then true
+       -- (after the C11-a fix) the scope is checked also when the namespace equals the owner's:
+       -- the API ignores metadata.namespace on cluster-scoped kinds
        else cfg.scope p.kind ≠ .namespaced)
     -- preflight.List runs every checker; an error from DryRun aborts
     if cfg.flavour.dryRun && p.dryRun = .error then .error
